@@ -55,6 +55,30 @@ def mutants_of(src: str, rel: str):
             sites.append(("swapif", node))
         elif isinstance(node, ast.Return) and node.value is not None and isinstance(node.value, ast.Constant) and isinstance(node.value.value, bool):
             pass
+        # second operator set (MUT_SET=2)
+        if isinstance(node, ast.Constant) and isinstance(node.value, str) and node.value and not isinstance(getattr(node, "_parent", None), ast.Expr) \
+                and not isinstance(getattr(node, "_parent", None), ast.JoinedStr):
+            sites.append(("str", node))
+        if isinstance(node, ast.If):
+            sites.append(("ifalways", node))
+            sites.append(("ifnever", node))
+        if isinstance(node, ast.IfExp):
+            sites.append(("ifexp", node))
+        if isinstance(node, ast.Return) and node.value is not None and not isinstance(node.value, ast.Constant):
+            sites.append(("retnone", node))
+        if isinstance(node, ast.Call) and len(node.args) == 2 and not node.keywords and not any(isinstance(a, ast.Starred) for a in node.args):
+            sites.append(("swapargs", node))
+        if isinstance(node, ast.AugAssign):
+            sites.append(("aug2assign", node))
+        if isinstance(node, ast.Slice) and (node.lower is not None or node.upper is not None):
+            sites.append(("slice", node))
+        if isinstance(node, (ast.Break, ast.Continue)):
+            sites.append(("brk", node))
+        if isinstance(node, ast.Subscript) and isinstance(node.slice, ast.Constant) and isinstance(node.slice.value, int):
+            sites.append(("index", node))
+    second = {"str", "ifalways", "ifnever", "ifexp", "retnone", "swapargs", "aug2assign", "slice", "brk", "index"}
+    which = os.environ.get("MUT_SET", "1")
+    sites = [x for x in sites if (x[0] in second) == (which == "2")] if which in ("1", "2") else sites
     out = []
     for k, (kind, node) in enumerate(sites):
         t2 = copy.deepcopy(tree)
@@ -111,6 +135,51 @@ def mutants_of(src: str, rel: str):
         elif kind == "swapif":
             target.body, target.orelse = target.orelse, target.body
             desc = "if/else branches swapped"
+        elif kind == "str":
+            v = target.value
+            target.value = (v[:-1] if len(v) > 1 else ("x" if v != "x" else "y"))
+            desc = "string constant changed"
+        elif kind == "ifalways":
+            target.test = ast.Constant(value=True)
+            desc = "if condition -> True"
+        elif kind == "ifnever":
+            target.test = ast.Constant(value=False)
+            desc = "if condition -> False"
+        elif kind == "ifexp":
+            target.body, target.orelse = target.orelse, target.body
+            desc = "conditional expression arms swapped"
+        elif kind == "retnone":
+            target.value = ast.Constant(value=None)
+            desc = "return value -> None"
+        elif kind == "swapargs":
+            target.args = [target.args[1], target.args[0]]
+            desc = "call arguments swapped"
+        elif kind == "aug2assign":
+            new = ast.Assign(targets=[target.target], value=target.value)
+            done = False
+            for n in ast.walk(t2):
+                for fname, val in ast.iter_fields(n):
+                    if isinstance(val, list) and target in val:
+                        val[val.index(target)] = new
+                        done = True
+            if not done:
+                continue
+            desc = "augmented assignment -> plain assignment"
+        elif kind == "slice":
+            if target.lower is not None:
+                target.lower = None
+            else:
+                target.upper = None
+            desc = "slice bound dropped"
+        elif kind == "brk":
+            for n in ast.walk(t2):
+                for fname, val in ast.iter_fields(n):
+                    if isinstance(val, list) and target in val:
+                        val[val.index(target)] = ast.Pass()
+            desc = "break/continue removed"
+        elif kind == "index":
+            target.slice = ast.Constant(value=target.slice.value + 1 if target.slice.value >= 0 else target.slice.value - 1)
+            desc = "constant index shifted"
         try:
             ast.fix_missing_locations(t2)
             new_src = ast.unparse(t2) + "\n"
